@@ -27,6 +27,15 @@ CLS = "skmatter.linear_model.OrthogonalRegression"
 
 
 def check(ctx):
+    # positional parameters keep their documented positions (a reordering survives every keyword call)
+    from ..sigrules import signatures as _signatures
+
+    _signatures(ctx, "R-SIG", classes=('skmatter.linear_model.OrthogonalRegression',))
+    from ..flagrules import class_flag_equivalence as _cfe
+    from ..harness import arr as _arr
+
+    _c = ctx.P.cls("skmatter.linear_model.OrthogonalRegression")
+    _cfe(ctx, ctx.normalizer(), "R-FLAG", _c, "use_orthogonal_projector", lambda: {}, [("fit", lambda: (_arr("X", "N", "M"), _arr("y", "N", "P")), lambda: {}), ("predict", lambda: (_arr("Xv", "V", "M"),), lambda: {})], ctx.site(_c.methods["fit"]), interp_kw={"order": [("M", "<", "P")], "assume": protocols.assume_default})
     P = ctx.P
     N = ctx.normalizer()
     cls = P.cls(CLS)
